@@ -450,55 +450,102 @@ pub fn core_build(keys: &LibKeys, nonce: &[u8], msg: &str, footer: Option<&str>,
     }};
   }
   let bad_nonce = || LibErr::other("harness: nonce of the wrong length");
+  // the builder object is used twice and the SECOND token is the one handed on: it must be the same token again
+  let twice = msg.len() % 4 == 2;
   match keys {
     LibKeys::V1L(k) => {
       let n = nonce32(nonce).ok_or_else(bad_nonce)?;
       let mut b = setup!(V1, Local, plain);
       let mut b = if msg.len() % 3 == 0 { b.clone() } else { b };
-      b.try_encrypt(k, &PasetoNonce::<V1, Local>::from(&n)).map_err(|e| paseto_err(&e))
+      {
+        if twice {
+          let _ = b.try_encrypt(k, &PasetoNonce::<V1, Local>::from(&n));
+        }
+        b.try_encrypt(k, &PasetoNonce::<V1, Local>::from(&n)).map_err(|e| paseto_err(&e))
+      }
     }
     LibKeys::V2L(k) => {
-      let b = setup!(V2, Local, plain);
-      let b = if msg.len() % 3 == 0 { b.clone() } else { b };
+      let mut b = setup!(V2, Local, plain);
+      let mut b = if msg.len() % 3 == 0 { b.clone() } else { b };
       if nonce.len() == 24 {
         let n = nonce24(nonce).unwrap();
+        {
+        if twice {
+          let _ = b.try_encrypt(k, &PasetoNonce::<V2, Local>::from(&n));
+        }
         b.try_encrypt(k, &PasetoNonce::<V2, Local>::from(&n)).map_err(|e| paseto_err(&e))
+      }
       } else {
         let n = nonce32(nonce).ok_or_else(bad_nonce)?;
+        {
+        if twice {
+          let _ = b.try_encrypt(k, &PasetoNonce::<V2, Local>::from(&n));
+        }
         b.try_encrypt(k, &PasetoNonce::<V2, Local>::from(&n)).map_err(|e| paseto_err(&e))
+      }
       }
     }
     LibKeys::V3L(k) => {
       let n = nonce32(nonce).ok_or_else(bad_nonce)?;
       let mut b = setup!(V3, Local, assertion);
       let mut b = if msg.len() % 3 == 0 { b.clone() } else { b };
-      b.try_encrypt(k, &PasetoNonce::<V3, Local>::from(&n)).map_err(|e| paseto_err(&e))
+      {
+        if twice {
+          let _ = b.try_encrypt(k, &PasetoNonce::<V3, Local>::from(&n));
+        }
+        b.try_encrypt(k, &PasetoNonce::<V3, Local>::from(&n)).map_err(|e| paseto_err(&e))
+      }
     }
     LibKeys::V4L(k) => {
       let n = nonce32(nonce).ok_or_else(bad_nonce)?;
       let mut b = setup!(V4, Local, assertion);
       let mut b = if msg.len() % 3 == 0 { b.clone() } else { b };
-      b.try_encrypt(k, &PasetoNonce::<V4, Local>::from(&n)).map_err(|e| paseto_err(&e))
+      {
+        if twice {
+          let _ = b.try_encrypt(k, &PasetoNonce::<V4, Local>::from(&n));
+        }
+        b.try_encrypt(k, &PasetoNonce::<V4, Local>::from(&n)).map_err(|e| paseto_err(&e))
+      }
     }
     LibKeys::V1P(sk, _) => {
       let mut b = setup!(V1, Public, plain);
       let mut b = if msg.len() % 3 == 0 { b.clone() } else { b };
-      b.try_sign(sk.as_ref().ok_or_else(no_secret)?).map_err(|e| paseto_err(&e))
+      {
+        if twice {
+          let _ = b.try_sign(sk.as_ref().ok_or_else(no_secret)?);
+        }
+        b.try_sign(sk.as_ref().ok_or_else(no_secret)?).map_err(|e| paseto_err(&e))
+      }
     }
     LibKeys::V2P(sk, _) => {
       let mut b = setup!(V2, Public, plain);
       let mut b = if msg.len() % 3 == 0 { b.clone() } else { b };
-      b.try_sign(sk.as_ref().ok_or_else(no_secret)?).map_err(|e| paseto_err(&e))
+      {
+        if twice {
+          let _ = b.try_sign(sk.as_ref().ok_or_else(no_secret)?);
+        }
+        b.try_sign(sk.as_ref().ok_or_else(no_secret)?).map_err(|e| paseto_err(&e))
+      }
     }
     LibKeys::V3P(sk, _) => {
       let mut b = setup!(V3, Public, assertion);
       let mut b = if msg.len() % 3 == 0 { b.clone() } else { b };
-      b.try_sign(sk.as_ref().ok_or_else(no_secret)?).map_err(|e| paseto_err(&e))
+      {
+        if twice {
+          let _ = b.try_sign(sk.as_ref().ok_or_else(no_secret)?);
+        }
+        b.try_sign(sk.as_ref().ok_or_else(no_secret)?).map_err(|e| paseto_err(&e))
+      }
     }
     LibKeys::V4P(sk, _) => {
       let mut b = setup!(V4, Public, assertion);
       let mut b = if msg.len() % 3 == 0 { b.clone() } else { b };
-      b.try_sign(sk.as_ref().ok_or_else(no_secret)?).map_err(|e| paseto_err(&e))
+      {
+        if twice {
+          let _ = b.try_sign(sk.as_ref().ok_or_else(no_secret)?);
+        }
+        b.try_sign(sk.as_ref().ok_or_else(no_secret)?).map_err(|e| paseto_err(&e))
+      }
     }
   }
 }
@@ -593,6 +640,9 @@ pub enum NativeVal {
   /// i128 / u128 holding a value that fits 64 bits
   I128(i64),
   U128(u64),
+  /// values serde_json can write as text but cannot hold in a `Value`: 0 u128::MAX, 1 i128::MIN; 2 a map keyed by tuples
+  /// (cannot be written at all). As claim VALUES on the parser side they are only carriers for a validator.
+  Unholdable(u8),
 }
 
 #[derive(Serialize)]
@@ -671,6 +721,15 @@ impl<'a> Serialize for NativeSer<'a> {
       NativeVal::Measure { ratio, weights, scale } => NativeMeasure { ratio: f32_of(ratio), weights: weights.iter().map(|t| f32_of(t)).collect(), scale: f64_of(scale) }.serialize(s),
       NativeVal::I128(v) => (*v as i128).serialize(s),
       NativeVal::U128(v) => (*v as u128).serialize(s),
+      NativeVal::Unholdable(k) => match k % 3 {
+        0 => u128::MAX.serialize(s),
+        1 => i128::MIN.serialize(s),
+        _ => {
+          let mut m = std::collections::BTreeMap::new();
+          m.insert((1u8, 2u8), 3u8);
+          m.serialize(s)
+        }
+      },
     }
   }
 }
@@ -714,6 +773,7 @@ impl NativeVal {
       NativeVal::Measure { ratio, weights, scale } => json!({"ratio": float_json(ratio), "weights": weights.iter().map(|t| float_json(t)).collect::<Vec<_>>(), "scale": float_json(scale)}),
       NativeVal::I128(v) => json!(*v),
       NativeVal::U128(v) => json!(*v),
+      NativeVal::Unholdable(_) => Value::Null,
     }
   }
 }
